@@ -73,7 +73,8 @@ class FnSpec:
 
     @property
     def name(self):
-        return self.fid.split('::')[-1]
+        # src_name: the function was found under another name in the source (R19, renamed function with an unchanged body)
+        return getattr(self, 'src_name', None) or self.fid.split('::')[-1]
 
 
 def _tags(s):
